@@ -529,7 +529,10 @@ def detour_suite(tier, seed):
                         conns.append({"src": f"io{q}", "dst": "xbar"})
                     d["endpoints"], d["routers"], d["connections"] = eps, rts, conns
                     out.append((d, {"topo": "bypass", "chain": chain, "hub_ports": hub_extra + 2}))
-            for (m, n) in (((3, 1), (4, 2), (3, 3)) if tier == "quick" else ((3, 1), (4, 1), (4, 2), (5, 2), (3, 3), (4, 4))):
+            # rings long enough that the way round the wrap-around link is strictly shorter (6x1: 1 -> 5 is two hops
+            # over the wrap, four along the row), so a search guided by array-index distance would be caught
+            for (m, n) in (((3, 1), (6, 1), (5, 2), (3, 3)) if tier == "quick" else
+                           ((3, 1), (4, 1), (6, 1), (7, 1), (4, 2), (5, 2), (6, 2), (3, 3), (4, 4), (5, 5))):
                 d, _ = mesh(rng, m, n, algo, nw, name="torus")
                 for y in range(n):
                     d["connections"].append({"src": "router", "dst": "router", "src_idx": [0, y], "dst_idx": [m - 1, y],
